@@ -151,6 +151,48 @@ def run(ctx):
                     elif len(samples) < 4 and l in r["primary"]:
                         samples.append({"id": r["id"], "label": l["label"], "range": [l["start"], l["end"]],
                                         "text_under_label": sources[p][l["start"]:l["end"]].decode("utf-8", "replace")[:100]})
+        # (ii-b) labels of reports that span two files named on the command line (seeded C04 m6: the label of the first definition carried
+        # the offsets of one file and the id of the other): a name defined in both files, the files given in both orders; the label of
+        # the first definition lies behind `template <name>(` / `function <name>(` in the file it names, the other one on a definition
+        # of that name
+        dup_projects = []
+        for k in range(6 if ctx.tier == "quick" else 40):
+            nm = "Dup%d" % k
+            fa = "pragma circom 2.0.0;\n" + ("// é header\n" if k % 2 else "") + "template %s(n) { signal input in; signal output out; out <== in * n; }\n" % nm
+            fb = ("pragma circom 2.0.0;\n// a second file which defines the same name, longer than the first one, with a comment in front: ü ü ü ü ü ü ü ü ü ü\n"
+                  "function sq%d(x) { return x * x; }\n" % k) + \
+                 ("function %s(width, depth) { return width + depth; }\n" % nm if k % 3 == 0 else
+                  "template %s(width, depth) { signal input in; signal output out; out <== in * sq%d(width + depth); }\n" % (nm, k))
+            pa = wd.write("dup%d/a.circom" % k, fa.encode("utf-8"))
+            pb = wd.write("dup%d/b.circom" % k, fb.encode("utf-8"))
+            for order in ([pa, pb], [pb, pa]):
+                dup_projects.append((nm, {pa: fa.encode("utf-8"), pb: fb.encode("utf-8")}, {"inputs": order, "libs": [], "curve": "BN254"}))
+        for (nm, sources, req), rep in zip(dup_projects, vlib.analyze([d[2] for d in dup_projects])):
+            if "crash" in rep:
+                continue
+            dups = [r for r in vlib.reports_of(rep) if (r["message"] or "").startswith("Duplicated function or template")]
+            if not dups:
+                bad_labels += 1
+                ctx.violation("bad-label duplicate-missing", {"stage": "L1 label audit, two named files", "files": {k: v.decode() for k, v in sources.items()}, "inputs": req["inputs"],
+                                                              "why": "no report about the duplicated name", "broken": None})
+            for r in dups:
+                n_reports += 1
+                for l in r["primary"] + r["secondary"]:
+                    n_labels += 1
+                    why = audit_label(l, None, sources)
+                    if why is None:
+                        b = sources[l["file"]]
+                        before = b[:l["start"]].decode("utf-8", "replace")
+                        under = b[l["start"]:l["end"]].decode("utf-8", "replace")
+                        if "first definition" in l["label"]:
+                            if not re.search(r"(?:template|function)\s+%s\s*\($" % nm, before):
+                                why = "the label speaks about the parameters of the first definition of `%s` but stands behind %r in %s" % (nm, before[-30:], os.path.basename(l["file"]))
+                        elif not re.match(r"(?:template|function)\s+%s\b" % nm, under):
+                            why = "the label speaks about the name `%s` but covers %r" % (nm, under[:40])
+                    if why:
+                        bad_labels += 1
+                        ctx.violation("bad-label duplicate", {"stage": "L1 label audit, two named files", "files": {k: v.decode() for k, v in sources.items()}, "inputs": req["inputs"],
+                                                              "report": r, "label": l, "why": why, "broken": None})
         # (iii) what the user sees: line:column printed by the real binary and the SARIF regions, against positions
         # recomputed from the original bytes of the labels collected in-process
         cli = vlib.build_cli()
